@@ -422,7 +422,8 @@ class SymReModule:
                 r = self._cache[k] = SymPattern(pattern.pattern, pattern.flags, real=pattern)
             return r
         if isinstance(pattern, SStr):
-            raise Unsupported("compiling a symbolic regular expression")
+            # exhaustive case split over the (finitely many) feasible pattern texts
+            pattern = pattern.concretize()
         k = (pattern, int(flags))
         r = self._cache.get(k)
         if r is None:
